@@ -62,6 +62,37 @@ def rule_no_follow(ctx, facts, prefix):
     ctx.check(not follow, prefix, "follow-links", "symbolic links are never followed (%s)" % ([c.where() for c in follow] or "no follow_links call"), f.where())
 
 
+_PASS = r"::(to_string|to_str|to_owned|into|ok_or_else|ok_or|branch|from_residual|unwrap|expect|unwrap_or_default|map|as_ref|as_str|as_path|clone|to_path_buf|into_os_string|into_string|display|to_string_lossy|into_owned|from|deref|borrow|as_os_str|from_str)$"
+
+
+def _producers(body, op, target_re, depth=0, seen=None):
+    """calls matching target_re from which the value of `op` can come, looking through copies, references,
+    projections, Option / Result payloads (also the synthetic ones of desugared combinators), `?`, and conversion
+    calls (receiver position)"""
+    seen = seen if seen is not None else set()
+    out = []
+    p = op_place(op)
+    if p is None or depth > 60 or p["l"] in seen:
+        return out
+    seen.add(p["l"])
+    for (bb, kind, d) in body.defs.get(p["l"], []):
+        if kind == "call":
+            if d.matches(target_re):
+                out.append(d)
+            elif d.matches(_PASS) and d.args:
+                out.extend(_producers(body, d.args[0], target_re, depth + 1, seen))
+        elif kind == "assign":
+            rv = d["rv"]
+            if rv["k"] in ("use", "cast"):
+                out.extend(_producers(body, rv["op"], target_re, depth + 1, seen))
+            elif rv["k"] == "ref":
+                out.extend(_producers(body, {"copy": rv["place"]}, target_re, depth + 1, seen))
+            elif rv["k"] == "agg":
+                for o2 in rv.get("ops", []):
+                    out.extend(_producers(body, o2, target_re, depth + 1, seen))
+    return out
+
+
 def run(ctx):
     facts = ctx.bin
     P = "C15-R1"
@@ -288,6 +319,19 @@ def run(ctx):
                     break
             parts = path_parts(cn, pathop) if pathop is not None else None
             fields = [_field_path(cn, x)[-1:] for x in (parts or [])]
+            if fields != [["config_dir"], ["source_dir"]] and sst["rv"]["k"] == "use":
+                # shape-independent: every `Path::join` the stored string can come from (through conversions,
+                # Option / Result wrappers, `?`) joins Path::new(config_dir) with source_dir
+                joins = _producers(cn, sst["rv"]["op"], r"^std::path::Path::join$")
+                fj = []
+                for j in joins:
+                    base = _producers(cn, j.args[0], r"^std::path::Path::new$")
+                    bf = [_field_path(cn, b.args[0])[-1:] for b in base] or [_field_path(cn, j.args[0])[-1:]]
+                    fj.append((bf, _field_path(cn, j.args[1])[-1:]))
+                if joins and all(bf and all(x == ["config_dir"] for x in bf) and af == ["source_dir"] for (bf, af) in fj):
+                    parts, fields = [None, None], [["config_dir"], ["source_dir"]]
+                else:
+                    fields = fields or [str(x) for x in fj]
             ctx.check(parts is not None and fields == [["config_dir"], ["source_dir"]], P, "join-base",
                       "the new source_dir is <config_dir>/<source_dir> (components: %s)" % fields, cn.where(sb))
             ctx.ok(P, "the joined component is the configured source_dir", cn.where(sb))
